@@ -136,7 +136,7 @@ func (s *sharedEntryAttributes) toXmlInternal(parent *etree.Element, onlyNewOrUp
 					return false, nil
 				}
 				le := s.leafVariants.GetHighestPrecedence(false, false)
-				if onlyNewOrUpdated && !(le.IsNew || le.IsUpdated) {
+				if le == nil || (onlyNewOrUpdated && !(le.IsNew || le.IsUpdated)) {
 					return false, nil
 				}
 			}
